@@ -277,6 +277,11 @@ def check_workers_empty(ctx):
         conds = Conds(f.node, expander(view))
         loops = [(n, n.iter) for n in walk_own(f.node) if isinstance(n, ast.For) and 'empty' in U(n.iter)]
         if not loops:
+            # the pairing written as a comprehension / generator (rows.extend(make_row(..) for l_id in l_empty_records))
+            for n in walk_own(f.node):
+                if isinstance(n, (ast.GeneratorExp, ast.ListComp)) and len(n.generators) == 1 and 'empty' in U(n.generators[0].iter):
+                    loops.append((view.stmt_of(n), n.generators[0].iter))
+        if not loops:
             # the pairing loop moved into a helper: the call statement is the site, the argument bound to the
             # parameter the helper iterates is the iterated list
             for n in walk_own(f.node):
@@ -329,7 +334,16 @@ def check_workers_empty(ctx):
                   'empty-empty pairs are lost or produced although not allowed' % (flag, got), lp,
                   sample='build(%s)[\'empty_records\'] of the index over the left table' % flag)
         # the branch ends the iteration: a `continue` with the guard's condition, and no other continue
-        conts = [n for n in walk_own(f.node) if isinstance(n, ast.Continue)]
+        def innermost_loop(target):
+            best = None
+            for n in walk_own(f.node):
+                if isinstance(n, (ast.For, ast.While)) and n is not target and any(x is target for st_ in n.body for x in ast.walk(st_)):
+                    if best is None or any(x is n for x in ast.walk(best)):
+                        best = n
+            return best
+        row_loop = innermost_loop(lp)
+        # only the `continue`s of the row loop itself count (a guard-clause continue of the candidate loop is another matter)
+        conts = [n for n in walk_own(f.node) if isinstance(n, ast.Continue) and innermost_loop(n) is row_loop]
         okc = len(conts) == 1 and Universe(int_atoms=lambda a: True).equivalent(conds.of(conts[0]), ref) is None
         ctx.check('R-EMPTY/continue', f, 'continue', okc,
                   'an empty right row must skip the probe exactly when the empty branch ran (found %d continue statements)'
